@@ -59,7 +59,7 @@ def degen_case(draw):
         fg = dict(kind="log", tail="below" if f0 * 1.3 ** (nf - 1) <= 0.333 else "above", f=[round(f0 * 1.3**i, 6) for i in range(nf)])
     dg = draw(gen.dir_grid(nd, nd, spacing=("whole", "dyadic")))
     dims = draw(gen.extra_dims(maxdims=1, maxsize=2))
-    names = draw(st.lists(st.sampled_from(sorted(ops.CATALOGUE)), unique=True, min_size=6, max_size=10))
+    names = draw(st.lists(st.sampled_from(sorted(ops.CATALOGUE)), unique=True, min_size=14, max_size=18))
     return dict(cls=cls, fg=fg, dg=dg, dims=dims, names=names, op=draw(ops.op_spec(has_dir=True, nf=3)), amp=draw(st.sampled_from([1e-6, 1.0, 50.0])),
                 dtype=draw(st.sampled_from(["float64", "float32"])), pos=draw(st.integers(0, 63)), winds=[dict(wspd=draw(st.floats(0, 40)), wdir=draw(st.floats(0, 360)), dpt=draw(st.sampled_from([1.0, 30.0, 3000.0])))])
 
